@@ -17,7 +17,7 @@ from .common import Evidence, Verdicts, run_tlc, pmap, seed
 
 PROP = "C09"
 ALPHABETS = ["NumAlpha", "StrAlpha", "LayAlpha"]
-FILLERS = [" ", "\t", "\n", "\r", "\r\n", ",", "\ufeff", "#c\n"]
+FILLERS = [" ", "\t", "\n", "\r", "\r\n", ",", "\ufeff", "#c\n", "#a\n#b\n", "#a\r#b\r\n , #c\n"]
 
 
 def _g_chunk(recs):
